@@ -30,6 +30,16 @@ Tags(e) == e.blk \o (IF e.directed = 1 THEN ",directed" ELSE "")
            \o (IF ~IsConnected(e.A) THEN ",disconnected" ELSE "")
            \o (IF Isolated(e.A, e.v) \/ Isolated(Split(Abs0(e), e.v, e.pn, e.pd).A, e.v2)
                THEN ",split_isolated_node" ELSE "")
+\* group-indexed n.s.i. measures of InteractingNetworks (o before, p after splitting a node whose position
+\* in the lists S / T was pos[1] / pos[2]; its twin was appended to the same list): old entries unchanged,
+\* the twin's entry equals the split node's
+BadGroup(o, p, pos) ==
+  {nm \in DOMAIN o.g \cap DOMAIN p.g :
+     LET k == IF o.gl[nm] = "S" THEN pos[1] ELSE pos[2]  a == o.g[nm]  b == p.g[nm] IN
+     ~(IF k = 0 THEN CloseSeq(b, a, Tol)
+       ELSE /\ Len(b) = Len(a) + 1
+            /\ \A j \in 1..Len(a) : Close(b[j], a[j], Tol)
+            /\ Close(b[Len(a) + 1], a[k], Tol))}
 Verdict(e) ==
   LET a0 == Abs0(e)
       a1 == Split(a0, e.v, e.pn, e.pd)
@@ -41,6 +51,9 @@ Verdict(e) ==
      ELSE IF e.split2.A # a2.A \/ e.split2.w # a2.w THEN R("SplitDef", "splitted_copy(second)")
      ELSE IF OneSided(o0, o1) # {} THEN R("OneSidedException", JoinSet(OneSided(o0, o1)))
      ELSE IF OneSided(o1, o2) # {} THEN R("OneSidedException", JoinSet(OneSided(o1, o2)))
+     \* (the n.s.i. cross / internal measures are defined for undirected networks)
+     ELSE IF e.directed = 0 /\ BadGroup(e.obs0, e.obs1, e.pos1) \cup BadGroup(e.obs1, e.obs2, e.pos2) # {}
+          THEN R("NsiAgree", JoinSet(BadGroup(e.obs0, e.obs1, e.pos1) \cup BadGroup(e.obs1, e.obs2, e.pos2)))
      ELSE LET b1 == BadNsi(o0, o1, e.v, Tol)  b2 == BadNsi(o1, o2, e.v2, Tol) IN
           IF b1 # "" /\ b2 # "" THEN R("NsiAgree", b1 \o ";" \o b2)
           ELSE IF b1 # "" \/ b2 # "" THEN R("NsiAgree", b1 \o b2)
